@@ -20,7 +20,7 @@ claimed = {
          "recording Hasher stands for every Hasher"),
  "C15": ("§4 C15", "String re-slicing and escape decoding kernels: StringSlice::new / with_bounds / split and KString::with_bounds create a slice exactly for in-range bounds on character boundaries and as_str is exactly the requested bytes (strings up to 9 bytes mixing 1-, 2-, 3-byte characters); grapheme pops tile the string; escape_string_character decodes every escape over 12 symbolic characters exactly or errors (never another character); format-spec numbers and specs parse exactly. Core-library string functions and interpolation formatting run in the VM and are outside the claim.",
          "caller precondition end <= len for with_bounds/split (established by KRange::indices, itself checked under C01); Unicode models; constant pool stubbed for format-spec parsing"),
- "C20": ("§4 C20", "Serde conversion of primitive values only: every i64 / u8 / bool (thorough: every other integer width up to 64 bits) converted to a Koto value and back is unchanged and becomes the integer number of the same value; an arbitrary number (integer or float, all payloads, NaN and infinities included) converts to an integer type exactly when its (truncated) value is representable, and then to that value, otherwise to an error - never to a saturated or wrapped value (found and fixed F21: from_koto_value::<u8>(300) was Ok(255)); a u64 serializes exactly when it fits an i64. Strings, sequences, maps, structs, enums, options and the JSON / YAML / TOML text formats are outside the claim: they create and consume containers of KValues of statically unknown variant, and the text parsers / float printers are trip-count-by-input loops.",
+ "C20": ("§4 C20", "Serde conversion of primitive values only: every i64 / u8 / bool (thorough: every other integer width up to 64 bits) converted to a Koto value and back is unchanged and becomes the integer number of the same value; an arbitrary number (integer or float, all payloads, NaN and infinities included) converts to an integer type exactly when its (truncated) value is representable, and then to that value, otherwise to an error - never to a saturated or wrapped value (found and fixed F21: from_koto_value::<u8>(300) was Ok(255)); a u64 serializes exactly when it fits an i64; in the other direction a Koto number / bool / null handed to a serde serializer (the value side of json/yaml/toml.to_string) arrives with its own kind and exact value. Strings, chars, sequences, maps, structs, enums, options and the JSON / YAML / TOML text formats are outside the claim: they create and consume containers of KValues of statically unknown variant, and the text parsers / float printers are trip-count-by-input loops.",
          "std::fmt::format stubbed; rc.rs lazy! thread-local cache replaced by direct construction and std::rt::thread_cleanup stubbed (Kani 0.68 ICE work-arounds); serde_core's primitive visitors are part of the encoded code"),
  "C19": ("§4 C19", "Sequential half only: every 4-operation script over the shared-cell API (try_borrow, try_borrow_mut, guard drops, write, read, clone, blocking borrows where they cannot block) checked against one abstract model under both the rc build (Rc<RefCell>) and the arc build (Arc<parking_lot::RwLock>); Ptr clone/ref_count/make_mut/ptr_eq under both. Interleavings (atomicity, lost updates, deadlock) are not addressed: Kani does not model threads.",
          "parking_lot fast paths; single thread"),
